@@ -71,6 +71,9 @@ class _Tracer:
             k = -(id(key) % 1000000) - 1
         f = key[1]
         plain = type(f).__name__ != '_ParseFunction'
+        if not plain and not f.args and not f.kwargs:
+            # a parameterless rule handed over in a wrapper without arguments is still that rule
+            plain = True
         name = getattr(f, '__name__', None) or getattr(getattr(f, 'func', None), '__name__', '?')
         return k, plain, name, key[2]
 
